@@ -74,6 +74,7 @@ def strip_comment(l):
 
 
 GEN2 = False
+GEN3 = False
 
 
 def gen(filters):
@@ -119,6 +120,16 @@ def gen(filters):
             if re.match(r"^(self|\*?[a-z_][a-z_0-9.]*)(\.[a-z_0-9]+)*\s*(=|\+=|-=)\s*[^=].*;$", s) or re.match(r"^(self|[a-z_][a-z_0-9]*)(\.[a-z_0-9]+)*\.[a-z_0-9]+\(.*\);$", s) or s in ("continue;", "break;"):
                 if not s.startswith("let "):
                     muts.append({"file": rel, "line": n, "op": "del", "col": 0, "old": s, "new": ""})
+            # third batch (gen3): `x(..)?;` statement deletion, single-line match-arm deletion, forced conditions
+            if GEN3:
+                if re.match(r"^(self|[a-z_][a-z_0-9]*)(\.[a-z_0-9]+)*\.[a-z_0-9]+\(.*\)\?;$", s) and not s.startswith("let "):
+                    muts.append({"file": rel, "line": n, "op": "delq", "col": 0, "old": s, "new": ""})
+                if re.match(r"^[^/]*=>.*,$", s) and not s.startswith("_ =>") and s.count("=>") == 1 and "{" not in s:
+                    muts.append({"file": rel, "line": n, "op": "arm", "col": 0, "old": s, "new": ""})
+                mm = re.match(r"^(\s*)(\} else )?if (?!let )(.+) \{$", code)
+                if mm and "=>" not in code:
+                    for forced in ("true", "false"):
+                        muts.append({"file": rel, "line": n, "op": "cond", "col": mm.start(3), "old": mm.group(3), "new": forced})
             # second batch (gen2): byte literals and small integer literals on index-ish lines
             if GEN2:
                 for m in re.finditer(r"b'([^'\\])'", code):
@@ -144,7 +155,7 @@ def apply(m, root):
     p = os.path.join(root, m["file"])
     lines = open(p, encoding="utf-8").read().split("\n")
     l = lines[m["line"] - 1]
-    if m["op"] == "del":
+    if m["op"] in ("del", "delq", "arm"):
         ind = l[: len(l) - len(l.lstrip())]
         lines[m["line"] - 1] = ind + "/* mutant: deleted */"
     else:
@@ -304,6 +315,19 @@ if __name__ == "__main__":
             rest.append(a)
     if cmd == "gen":
         gen(rest)
+    elif cmd == "gen3":
+        old = [json.loads(l) for l in open(os.path.join(ROOT, "mutants.jsonl"))]
+        shutil.copy(os.path.join(ROOT, "mutants.jsonl"), os.path.join(ROOT, "mutants.gen2.jsonl"))
+        GEN3 = True
+        gen(rest)
+        new = [json.loads(l) for l in open(os.path.join(ROOT, "mutants.jsonl"))]
+        new = [m for m in new if m["op"] in ("delq", "arm", "cond")]
+        for i, m in enumerate(new):
+            m["id"] = len(old) + i
+        with open(os.path.join(ROOT, "mutants.jsonl"), "w") as f:
+            for m in old + new:
+                f.write(json.dumps(m) + "\n")
+        print("appended", len(new))
     elif cmd == "gen2":
         # append the second batch (new operators only) to the existing list, keeping ids stable
         old = [json.loads(l) for l in open(os.path.join(ROOT, "mutants.jsonl"))]
